@@ -123,10 +123,12 @@ func childMain(run *ev.Run, spec, store, root string) {
 	fmt.Sscanf(spec, "%d/%d/%d", &k, &n, &deadline)
 	w := newWorker(store, filepath.Join(root, fmt.Sprintf("w%02d", k)))
 	var mine []*query
-	idx := -1
+	// sharded by the SQL text, so that the header-less and the header variant of one text run back to back on
+	// the same handler (a transform-cache entry of one must never serve the other)
 	enumerate(run.Quick(), func(q *query) {
-		idx++
-		if idx%n == k {
+		h := fnv.New32a()
+		h.Write([]byte(q.SQL()))
+		if int(h.Sum32()%uint32(n)) == k {
 			mine = append(mine, q)
 		}
 	})
@@ -205,12 +207,17 @@ func (m *minimizer) kindOf(q *query, ordered bool, want string) string {
 	ok, seen := m.memo[okey]
 	if !seen {
 		ok = "fails"
-		if m.w.askOracle(sqlText, q.Hdr).OK {
+		if a := m.w.askOracleTimeout(sqlText, q.Hdr, 10*time.Second); a.OK {
 			ok = "answers"
+		} else if a.Err == "timeout" {
+			ok = "timeout"
 		}
 		m.memo[okey] = ok
 	}
-	if want != "" && (ok == "answers") == strings.Contains(want, "arc-answers-duckdb-fails") {
+	if ok == "timeout" {
+		return "?duckdb-timeout" // a non-terminating candidate is never an instance of the class
+	}
+	if want != "" && (ok == "answers") == strings.Contains(want, "duckdb-fails") {
 		return "?duckdb-" + ok
 	}
 	m.runs++
@@ -302,8 +309,10 @@ func simpler(toks []string, i int) []string {
 	if up := strings.ToUpper(tok); up != tok && keywordSet[up] && !simpleIdentLower(tok) {
 		add(up)
 	}
-	if j := strings.LastIndex(tok, "."); j > 0 && tok[0] != '"' && tok[0] != '\'' {
+	if j := strings.LastIndex(tok, "."); j > 0 && tok[0] != '"' && tok[0] != '\'' && !isRef {
 		name := tok[j+1:]
+		add(strings.Trim(strings.ToLower(name), `"`)) // a qualified column reference -> the bare column
+		add(tok[:j+1] + "host")
 		if len(name) >= 2 && name[0] == '"' {
 			add(tok[:j+1] + name[1:len(name)-1])
 		} else if low := strings.ToLower(name); low != name {
@@ -405,6 +414,19 @@ func (m *minimizer) minimize(q *query, kind string) *query {
 			}
 			return m.kindOf(pick(base, cand), false, kind) == kind
 		})
+		// delta debugging only removes aligned chunks and single tokens: also try every contiguous range
+		// (a whole WITH clause, a whole parenthesised subquery), longest first
+		for again := true; again; {
+			again = false
+			for n := len(keep) - 1; n >= 2 && !again; n-- {
+				for s := 0; s+n <= len(keep) && !again; s++ {
+					cand := append(append([]int{}, keep[:s]...), keep[s+n:]...)
+					if len(cand) > 0 && m.kindOf(pick(base, cand), false, kind) == kind {
+						keep, again = cand, true
+					}
+				}
+			}
+		}
 		next := m.reduce(pick(base, keep), kind)
 		if len(next.Toks) == len(cur.Toks) && next.SQL() == cur.SQL() && next.Hdr == cur.Hdr {
 			break
@@ -423,7 +445,7 @@ func subsumes(min, q *query) bool {
 	def := defaultGaps(min.Glue)
 	j := 0
 	for i := 0; i < len(q.Toks) && j < len(min.Toks); i++ {
-		if q.Toks[i] != min.Toks[j] {
+		if canonTok(q.Toks[i]) != canonTok(min.Toks[j]) {
 			continue
 		}
 		if j > 0 && min.Gaps[j] != def[j] && q.Gaps[i] != min.Gaps[j] {
@@ -432,6 +454,26 @@ func subsumes(min, q *query) bool {
 		j++
 	}
 	return j == len(min.Toks)
+}
+
+var refCanon = func() map[string]bool {
+	set := map[string]bool{"Disk_IO": true, `"Disk_IO"`: true, "prod.Disk_IO": true}
+	for _, sp := range spellings {
+		for _, m := range []string{"cpu", "mem"} {
+			if t := sp.Text(m); !strings.Contains(t, " ") {
+				set[t] = true
+			}
+		}
+	}
+	return set
+}()
+
+// canonTok: for the subsumption test every spelling of every measurement counts as the same token.
+func canonTok(t string) string {
+	if refCanon[t] {
+		return "cpu"
+	}
+	return t
 }
 
 func signature(kind string, q *query) string {
@@ -522,7 +564,11 @@ func main() {
 	// the worker processes stop a quarter of the budget before the deadline: classification needs the rest
 	childDeadline := run.Deadline.Add(-time.Until(run.Deadline) / 4)
 	nProcs := 16
-	if n, err := strconv.Atoi(os.Getenv("VERIF_C16_WORKERS")); err == nil && n > 0 {
+	loadFile := os.Getenv("VERIF_C16_LOAD") // development aid: classify a dumped failure list, no enumeration
+	if loadFile != "" {
+		nProcs = 0
+	}
+	if n, err := strconv.Atoi(os.Getenv("VERIF_C16_WORKERS")); err == nil && n > 0 && loadFile == "" {
 		nProcs = n
 	}
 	self, err := os.Executable()
@@ -553,7 +599,7 @@ func main() {
 			for sc.Scan() {
 				var l line
 				if json.Unmarshal(sc.Bytes(), &l) != nil || (l.F == nil && l.S == nil) {
-					childErr.Store("worker process said: " + trunc(sc.Text(), 400))
+					childErr.CompareAndSwap(nil, "worker process said: "+trunc(sc.Text(), 400))
 					continue
 				}
 				if l.F != nil {
@@ -566,7 +612,7 @@ func main() {
 				}
 			}
 			if err := cmd.Wait(); err != nil {
-				childErr.Store(fmt.Sprintf("worker process failed: %v %s", err, trunc(stderr.String(), 600)))
+				childErr.CompareAndSwap(nil, fmt.Sprintf("worker process failed: %v %s", err, trunc(stderr.String(), 600)))
 			}
 		}(k)
 	}
@@ -580,6 +626,12 @@ func main() {
 		ev.Unbound(strings.TrimSpace(msg))
 	}
 	tEnum := time.Since(tStart)
+	if loadFile != "" {
+		b, err := os.ReadFile(loadFile)
+		must(err, "load")
+		must(json.Unmarshal(b, &fails), "load")
+		sums = []*summary{{Counters: map[string]int64{}, Complete: false}}
+	}
 
 	counters := map[string]int64{}
 	hashes := map[uint64]bool{}
@@ -616,6 +668,11 @@ func main() {
 		}
 		return a.Q.Hdr < b.Q.Hdr
 	})
+	if p := os.Getenv("VERIF_C16_DUMP"); p != "" { // development aid
+		b, _ := json.Marshal(fails)
+		os.WriteFile(p, b, 0o644)
+	}
+	debug := os.Getenv("VERIF_C16_DEBUG") != ""
 	mz := &minimizer{w: w0, memo: map[string]string{}}
 	var classes []*class
 	bySig := map[string]*class{}
@@ -638,13 +695,20 @@ func main() {
 			cleanup()
 			ev.Nondeterminism(fmt.Sprintf("%q (header %q): a worker process reported %q, the replay in the main process %q", showSQL(f.Q.SQL()), f.Q.Hdr, f.Kind, k))
 		}
+		t0, r0 := time.Now(), mz.runs
 		red := mz.reduce(f.Q, f.Kind)
 		if c := find(red, f.Kind); c != nil {
 			c.Count++
+			if debug {
+				fmt.Fprintf(os.Stderr, "reduced   %5.1fs %4d runs  %s -> %s\n", time.Since(t0).Seconds(), mz.runs-r0, showSQL(f.Q.SQL()), c.Sig)
+			}
 			continue
 		}
 		min := mz.minimize(red, f.Kind)
 		sig := signature(f.Kind, min)
+		if debug {
+			fmt.Fprintf(os.Stderr, "minimised %5.1fs %4d runs  %s -> %s\n", time.Since(t0).Seconds(), mz.runs-r0, showSQL(f.Q.SQL()), sig)
+		}
 		if c, ok := bySig[sig]; ok {
 			c.Count++
 			continue
